@@ -365,6 +365,10 @@ func genCodePoints(c *hc.Ctx, maxN int) []int {
 				break // lone surrogates are not characters; keep a few to see both sides agree
 			}
 			us = append(us, v)
+			if c.Chance(0.04) && len(us) < n {
+				// a glyph without a cmap entry (ligature, alternate): Cmap.ToUnicode gives 0, also inside a run
+				us = append(us, 0)
+			}
 		}
 	}
 	return us
@@ -438,6 +442,12 @@ func genTU(c *hc.Ctx) {
 		for _, u := range us {
 			if u >= 0x10000 {
 				c.Count("tu:has-surrogate-pair")
+				break
+			}
+		}
+		for _, u := range us {
+			if u == 0 {
+				c.Count("tu:has-unmapped-glyph(U+0000)")
 				break
 			}
 		}
